@@ -191,7 +191,24 @@ func shExec(c shCfg, ops []shOp, x *X) {
 	}
 	orig := c.Image.Bytes()
 	if c.Foreign != nil {
-		orig = shForeignSigned(orig, *c.Foreign)
+		var lf *libraryFailure
+		func() {
+			defer func() {
+				if r := recover(); r != nil {
+					if f, ok := r.(libraryFailure); ok {
+						lf = &f
+						return
+					}
+					panic(r)
+				}
+			}()
+			orig = shForeignSigned(orig, *c.Foreign)
+		}()
+		if lf != nil {
+			// the other tool's signature is built on the library's own content structure: the library failed before the history began
+			x.Fail("signhist.sign_succeeds", -1, "Sign", "%s", lf.msg)
+			return
+		}
 		x.Probe("start_signed_by_another_tool")
 	}
 	pe0, ents0, err := refPECertTable(orig)
@@ -606,11 +623,11 @@ func shForeignSigned(orig []byte, f shForeign) []byte {
 	pk := Pool()[f.Key%poolSize]
 	bin, err := authenticode.Parse(bytes.NewReader(orig))
 	if err != nil {
-		harnessf("signhist: foreign signing: parse: %v", err)
+		panic(libraryFailure{fmt.Sprintf("parsing a well-formed unsigned image failed: %v", err)})
 	}
 	lib, err := bin.Sign(pk.Key, pk.Cert)
 	if err != nil {
-		harnessf("signhist: foreign signing: %v", err)
+		panic(libraryFailure{fmt.Sprintf("signing a well-formed unsigned image with a healthy key failed: %v", err)})
 	}
 	like, err := refCMSParse(lib)
 	if err != nil {
@@ -643,3 +660,6 @@ func shForeignSigned(orig []byte, f shForeign) []byte {
 	binary.LittleEndian.PutUint32(out[pe0.CertDirOff+4:], uint32(len(entry)))
 	return out
 }
+
+// libraryFailure: the code under test failed inside a set-up step of the harness (not a harness error).
+type libraryFailure struct{ msg string }
